@@ -783,3 +783,76 @@ Proof.
     intros [k v] Hp. specialize (IH _ Hp). cbn in IH. destruct IH as [Ik Iv].
     unfold kv_hashC, kv_hash. cbn [fst snd strip_kv]. rewrite Ik, Iv. reflexivity.
 Qed.
+
+(* ------------------------------------------------------------------ the builders establish rep_ok *)
+Lemma set_has_In l x :
+  (forall y, In y l -> rep_ok y) -> rep_ok x ->
+  (existsb (fun y => Equal y x) l = true <-> In (canon x) (map canon l)).
+Proof.
+  intros Rl Rx. rewrite existsb_exists, in_map_iff. split.
+  - intros (y & Hy & E). exists y. split; auto. symmetry. apply Equal_spec_lemma; auto.
+    rewrite Equal_sym; auto.
+  - intros (y & E & Hy). exists y. split; auto. apply Equal_spec_lemma; auto.
+Qed.
+
+Lemma set_add_In l x y : In y (set_add l x) -> In y l \/ y = x.
+Proof.
+  induction l as [|z l IH]; cbn.
+  - intros [<-|[]]. auto.
+  - destruct (Equal z x).
+    + intros [<-|H]; auto.
+    + intros [<-|H]; auto. destruct (IH H); auto.
+Qed.
+
+Lemma set_add_canon l x :
+  (forall y, In y l -> rep_ok y) -> rep_ok x ->
+  map canon (set_add l x) =
+  if existsb (fun y => Equal y x) l then map canon l else map canon l ++ [canon x].
+Proof.
+  intros Rl Rx. induction l as [|z l IH]; cbn; [reflexivity|].
+  destruct (Equal z x) eqn:E; cbn.
+  - f_equal. symmetry. apply Equal_spec_lemma; auto. apply Rl. cbn; auto.
+  - rewrite IH by (intros; apply Rl; cbn; auto).
+    destruct (existsb (fun y => Equal y x) l); reflexivity.
+Qed.
+
+Lemma set_add_rep l x :
+  (forall y, In y l -> rep_ok y) -> rep_ok x -> NoDup (map canon l) ->
+  (forall y, In y (set_add l x) -> rep_ok y) /\ NoDup (map canon (set_add l x)) /\
+  (forall c, In c (map canon (set_add l x)) <-> In c (map canon l) \/ c = canon x).
+Proof.
+  intros Rl Rx Nd. split; [|split].
+  - intros y Hy. apply set_add_In in Hy as [Hy| ->]; auto.
+  - rewrite set_add_canon by auto. destruct (existsb (fun y => Equal y x) l) eqn:E; auto.
+    apply NoDup_app_single; auto. intros Hin. apply set_has_In in Hin; auto. congruence.
+  - intros c. rewrite set_add_canon by auto. destruct (existsb (fun y => Equal y x) l) eqn:E.
+    + apply set_has_In in E; auto. split; [auto|]. intros [H| ->]; auto.
+    + rewrite in_app_iff. cbn. intuition.
+Qed.
+
+Lemma fold_set_add_rep xs : forall acc,
+  (forall y, In y acc -> rep_ok y) -> (forall y, In y xs -> rep_ok y) -> NoDup (map canon acc) ->
+  (forall y, In y (fold_left set_add xs acc) -> In y acc \/ In y xs) /\
+  (forall y, In y (fold_left set_add xs acc) -> rep_ok y) /\
+  NoDup (map canon (fold_left set_add xs acc)) /\
+  (forall c, In c (map canon (fold_left set_add xs acc)) <-> In c (map canon acc) \/ In c (map canon xs)).
+Proof.
+  induction xs as [|x xs IH]; intros acc Ra Rx Nd; cbn.
+  - repeat split; auto. intros [H|[]]; auto.
+  - destruct (set_add_rep acc x Ra (Rx x (or_introl eq_refl)) Nd) as (R1 & N1 & M1).
+    destruct (IH (set_add acc x) R1 (fun y Hy => Rx y (or_intror Hy)) N1) as (I2 & R2 & N2 & M2).
+    repeat split; auto.
+    + intros y Hy. apply I2 in Hy as [Hy|Hy]; auto. apply set_add_In in Hy as [Hy| ->]; auto.
+    + intros Hc. apply M2 in Hc as [Hc|Hc]; auto. apply M1 in Hc as [Hc| ->]; auto.
+    + intros [Hc|[<-|Hc]]; apply M2; auto; left; apply M1; auto.
+Qed.
+
+Lemma MakeSet_ok xs : (forall y, In y xs -> rep_ok y) ->
+  rep_ok (MakeSet xs) /\ canon (MakeSet xs) = canon (VSet xs).
+Proof.
+  intros Rx. unfold MakeSet.
+  destruct (fold_set_add_rep xs [] (fun y H => match H with end) Rx (NoDup_nil _)) as (I & R & N & M).
+  split.
+  - split; [apply All_In; auto|auto].
+  - apply canon_set_eq. intros c. rewrite M. cbn. tauto.
+Qed.
